@@ -145,7 +145,7 @@ func HarnessBan() {
 }
 
 // HarnessBanOtherHost (C18): a ban of one host leaves the running bans of other hosts alone.
-// Host B has a running ban (ending 5 s or a day from now); host A is banned (A may have an entry
+// Host B has a running ban (ending two minutes or a day from now); host A is banned (A may have an entry
 // of its own, expired or running); afterwards B's entry is unchanged and B is still refused.
 func HarnessBanOtherHost() {
 	log := vh.Logger()
@@ -154,7 +154,7 @@ func HarnessBanOtherHost() {
 		banned: map[string]time.Time{}, outboundGroups: map[string]int{}, connectionCount: map[string]int{}}
 	const other = "10.7.7.7"
 	t0 := vh.Now()
-	otherEnd := t0.Add(time.Duration([]int64{5, 86400}[vh.Choose(2)]) * time.Second)
+	otherEnd := t0.Add(time.Duration([]int64{120, 86400}[vh.Choose(2)]) * time.Second)
 	st.banned[other] = otherEnd
 	switch vh.Choose(3) { // host A's own entry: none, expired, running
 	case 1:
